@@ -388,6 +388,7 @@ structure Fwd (s s' : PS) : Prop where
   inside : s'.pos ≤ E.pat.length
   os : s'.optionsStack = s.optionsStack
   st : s'.stack = s.stack
+  gr : s'.group = s.group
 
 macro_rules
   | `(tactic| wp_simp3) => `(tactic| simp only [andM, orM, andMM, rcIs, rcNe, getIs, nextIs, wp_bind, wp_pure, wp_ite,
@@ -425,7 +426,7 @@ theorem wp_scanQuantifier (q : Nat) (s : PS) (hs : s.pos ≤ E.pat.length) (h1 :
     intro mn mx p' hp hp'
     refine wp_mono (wp_quantApply E mn mx _ hp' hu) ?_ ?_
     · intro _ s' ⟨hf, hun⟩
-      exact ⟨⟨by have := hf.le; dsimp only at this; omega, hf.inside, hf.os, hf.st⟩, hun⟩
+      exact ⟨⟨by have := hf.le; dsimp only at this; omega, hf.inside, hf.os, hf.st, hf.gr⟩, hun⟩
     · intros; trivial
 
 theorem TQb_end {p : Nat} (h : E.pat.length ≤ p) : TQb E p = false := by
@@ -453,9 +454,10 @@ theorem wp_stepAfter (b : Bool) (s : PS) (hs : s.pos ≤ E.pat.length) (hu : s.u
     refine wp_mono (wp_scanQuantifier E c _ (by dsimp only; omega) (by dsimp only; omega)
       (by dsimp only; rw [h5.2.2.1]; exact hu) (by simpa using hc) (by simpa using htq)) ?_ ?_
     · intro _ s' ⟨hf, hun⟩
-      refine ⟨⟨_, rfl⟩, ⟨by have := hf.le; dsimp only at this; omega, hf.inside, ?_, ?_⟩, hun, ?_⟩
+      refine ⟨⟨_, rfl⟩, ⟨by have := hf.le; dsimp only at this; omega, hf.inside, ?_, ?_, ?_⟩, hun, ?_⟩
       · rw [hf.os]; exact h5.1
       · rw [hf.st]; exact h5.2.1
+      · rw [hf.gr]; exact h5.2.2.2.1
       · intro he; have := hf.le; dsimp only at this; omega
     · intros; trivial
   · rename_i s1 _ _ _ _ h4 _ _ _ he
